@@ -175,7 +175,7 @@ func checkC09(c *Ctx, r *Report) {
 					switch {
 					case sel == counterSel:
 						incs = append(incs, k)
-					case sel == "v2SessionLayer":
+					case sel == fSess:
 						// whole-value store: Sequence comes from the literal (zero if absent)
 						seqVal, seqValAt = nil, -1
 						if f, _, ok := complitFields(x.Val); ok {
@@ -183,7 +183,7 @@ func checkC09(c *Ctx, r *Report) {
 								seqVal, seqValAt = v, k
 							}
 						}
-					case sel == "v2SessionLayer.Sequence":
+					case sel == fSess+".Sequence":
 						seqVal, seqValAt = x.Val, k
 					}
 				case *ssa.Call:
@@ -270,7 +270,7 @@ func checkC09(c *Ctx, r *Report) {
 			allInstrs(fn, false, func(in ssa.Instruction) {
 				if st, ok := in.(*ssa.Store); ok {
 					sel := apOf(st.Addr).SelString()
-					if sel == "v2SessionLayer.ID" || sel == "v2SessionLayer.Sequence" {
+					if sel == fSess+".ID" || sel == fSess+".Sequence" {
 						r.Bad(c.FnName(fn)+"|store "+sel, st.Pos(), "session-less wrapper given a session ID or sequence number")
 					}
 				}
@@ -280,7 +280,7 @@ func checkC09(c *Ctx, r *Report) {
 				}
 				uses := false
 				for _, a := range serializeLayerArgs(call) {
-					if a != nil && apOf(stripConv(a)).SelString() == "v2SessionLayer" {
+					if a != nil && apOf(stripConv(a)).SelString() == fSess {
 						uses = true
 					}
 				}
@@ -293,7 +293,7 @@ func checkC09(c *Ctx, r *Report) {
 				found := false
 				allInstrs(fn, false, func(in2 ssa.Instruction) {
 					sel, _, st, isSt := storeSel(in2)
-					if !isSt || sel != "v2SessionLayer" || !mustPrecede(fn, st, call) {
+					if !isSt || sel != fSess || !mustPrecede(fn, st, call) {
 						return
 					}
 					dirty := false
